@@ -290,6 +290,13 @@ def main() -> int:
         seed = int(os.environ.get("VERIF_SEED", "0") or 0)
     except ValueError:
         seed = 0
+    # watchdog: a check always ends (exit 2 = infrastructure/timeout, never a VIOLATION)
+    import signal
+    def _timeout(*_a):
+        print("INFRA-ERROR: check exceeded its time limit")
+        os._exit(2)
+    signal.signal(signal.SIGALRM, _timeout)
+    signal.alarm(int(os.environ.get("VERIF_TIME_LIMIT", "2400" if tier == "quick" else "14400")))
     try:
         return run_property(a.pid.upper(), tier, seed, a.replay)
     except Infra as e:
